@@ -21,7 +21,7 @@ const RULE: &str = "one case = one real client (client_main_inner) run against a
 forward-then-orderly-WebSocket-Close, forward-then-black-hole (stream request timeout), forward healthy; parameters scaled down (max_retry_interval 400-800 ms, handshake/channel timeout 1 s, max_retry_count 0..4). \
 Oracle: number of attempts, k-th consecutive delay >= min(200*2^k, max) - 5 ms always and <= expected + max(150 ms, 50%) in the best of the repeats, restart from 200 ms after a success, MaxRetryCountReached after exactly max_retry_count retries, \
 one attempt for a non-retryable error, local listeners accept during outages, a local connection accepted during an outage or whose stream request timed out completes its position-addressed conversation over the next healthy connection, \
-after an orderly Close the client reconnects by itself and UDP flows again. Timeouts are violations only with a process-quiescence witness, otherwise inconclusive. Non-trivial = at least one failed attempt was observed";
+after an orderly Close the client reconnects by itself and UDP flows again. Timeouts are violations only with a process-quiescence witness, otherwise inconclusive; a delay is too late only if it was late in every one of 5 repeats while a 5 ms timer task on the same runtime stayed punctual (load witness). Non-trivial = at least one failed attempt was observed";
 
 #[derive(Clone, Debug, PartialEq)]
 enum Act {
@@ -202,6 +202,8 @@ struct Outcome {
     udp_ok: Option<bool>,
     t0: Instant,
     quiescent_at_end: bool,
+    /// load witness: largest overshoot (ms) of a 5 ms timer task running on the same runtime for the whole scenario
+    max_timer_overshoot_ms: u64,
     target_seen: Vec<(u64, usize, bool)>,
 }
 
@@ -251,6 +253,16 @@ async fn run_scenario(sc: Scenario, seed: u64) -> Outcome {
     let (hr, scrx, dgrx) = HandlerResources::create();
     let hr: &'static HandlerResources = Box::leak(Box::new(hr));
     let t0 = Instant::now();
+    let overshoot = Arc::new(std::sync::atomic::AtomicU64::new(0));
+    let ov2 = overshoot.clone();
+    let ticker = tokio::spawn(async move {
+        loop {
+            let t = Instant::now();
+            tokio::time::sleep(Duration::from_millis(5)).await;
+            let over = t.elapsed().saturating_sub(Duration::from_millis(5)).as_millis() as u64;
+            ov2.fetch_max(over, std::sync::atomic::Ordering::Relaxed);
+        }
+    });
     let mut cl = tokio::spawn(client::client_main_inner(args, hr, scrx, dgrx));
     let mut exit: Option<(Duration, String)> = None;
     let mut conv_handle = None;
@@ -320,13 +332,15 @@ async fn run_scenario(sc: Scenario, seed: u64) -> Outcome {
     };
     let quiescent_at_end = tokio::task::spawn_blocking(|| net::process_quiescent(8, Duration::from_millis(60))).await.unwrap_or(false);
     cl.abort();
+    ticker.abort();
+    let max_timer_overshoot_ms = overshoot.load(std::sync::atomic::Ordering::Relaxed);
     g.abort();
     srv.abort();
     tt.abort();
     ue.abort();
     let attempts = glog.lock().unwrap().attempts.clone();
     let target_seen = seen.lock().unwrap().clone();
-    Outcome { attempts, exit, conv, probes_ok, probes, udp_ok, t0, quiescent_at_end, target_seen }
+    Outcome { attempts, exit, conv, probes_ok, probes, udp_ok, t0, quiescent_at_end, max_timer_overshoot_ms, target_seen }
 }
 
 fn scenarios(rng: &mut Rng64, thorough: bool) -> Vec<Scenario> {
@@ -359,6 +373,9 @@ fn scenarios(rng: &mut Rng64, thorough: bool) -> Vec<Scenario> {
     }
     v
 }
+
+/// A delay is judged too late only if it was late in at least this many repeats (all of them), each with a punctual timer witness.
+const LATE_CONFIRM_REPEATS: usize = 5;
 
 /// Expected gaps between consecutive attempts, derived from the script by the reference back-off.
 fn judge(st: &mut Stats, sc: &Scenario, outs: &[Outcome], seed: u64) {
@@ -413,8 +430,10 @@ fn judge(st: &mut Stats, sc: &Scenario, outs: &[Outcome], seed: u64) {
             let backoff = (200u64 << k.min(20)).min(sc.max_retry_interval) as i64;
             let tol = 150.max(backoff / 2);
             if min > tol {
-                if vals.iter().all(|v| *v > tol) && outs.iter().all(|o| o.quiescent_at_end) {
-                    st.violation(Violation { signature: format!("retry-too-late|pos={pos}"), detail: format!("[{}] the delay before attempt #{} exceeded the expected back-off by {vals:?} ms in every repeat (tolerance {tol} ms)", sc.name, pos + 1), replay: replay(&outs[0]) });
+                // load witness: a timer task on the same runtime was punctual throughout every repeat
+                let overs: Vec<u64> = outs.iter().map(|o| o.max_timer_overshoot_ms).collect();
+                if vals.iter().all(|v| *v > tol) && vals.len() >= LATE_CONFIRM_REPEATS && overs.iter().all(|o| (*o as i64) < tol / 4) {
+                    st.violation(Violation { signature: format!("retry-too-late|pos={pos}"), detail: format!("[{}] the delay before attempt #{} exceeded the expected back-off by {vals:?} ms in every one of {} repeats (tolerance {tol} ms; a 5 ms timer on the same runtime never overshot by more than {overs:?} ms)", sc.name, pos + 1, vals.len()), replay: replay(&outs[0]) });
                 } else {
                     st.inconclusive.push(format!("c19 [{}]: delay before attempt #{} late by {vals:?} ms", sc.name, pos + 1));
                 }
@@ -532,6 +551,19 @@ pub fn run(p: &Params) -> (Stats, &'static str) {
                 st.target("runs_with_failed_attempts", 1);
             }
             outs.push(o);
+        }
+        // a delay late in every repeat so far: repeat more before judging (lateness is a wall-clock observation)
+        let mut dry = Stats::new();
+        judge(&mut dry, sc, &outs, p.seed);
+        if dry.inconclusive.iter().any(|m| m.contains("late by")) {
+            for r in repeats..LATE_CONFIRM_REPEATS.max(repeats) {
+                let rt = tokio::runtime::Builder::new_multi_thread().worker_threads(2).enable_all().build().expect("rt");
+                let o = rt.block_on(run_scenario(sc.clone(), mix(p.seed, (i * 16 + r) as u64)));
+                rt.shutdown_background();
+                st.evaluations += 1;
+                st.count("extra_repeats_for_lateness", 1);
+                outs.push(o);
+            }
         }
         judge(&mut st, sc, &outs, p.seed);
         st.cell("script", sc.name);
